@@ -236,6 +236,9 @@ class _GetSplit(ast.NodeTransformer):
         return n
 
 
+_NOOP = __import__('re').compile(r"^[\w.]+\.(update|extend)\((\(\)|\[\]|set\(\)|\{\})\)$")
+
+
 class _Simplify(ast.NodeTransformer):
     """{}.keys() / {}.get(k, d) / {*()} / x | set() / x + 0"""
 
@@ -319,5 +322,7 @@ def split_gets(table: list[tuple]) -> list[tuple]:
                     return t
                 e = _Simplify().visit(_GetSplit(recv, key, present).visit(e))
                 return ast.unparse(ast.fix_missing_locations(e))
-            work.append((p2, (kind, tr(val), tuple((k, tr(t)) for k, t in finals), tuple(tr(t) for t in eff), iters)))
+            # adding nothing is no effect: acc.update(()) / acc.extend([]) left over from `d.get(k, {}).keys()` with k missing
+            eff2 = tuple(t2 for t2 in (tr(t) for t in eff) if not _NOOP.match(t2 or ""))
+            work.append((p2, (kind, tr(val), tuple((k, tr(t)) for k, t in finals), eff2, iters)))
     return out + work
